@@ -119,7 +119,16 @@ pub const PROGRAMS: &[&str] = &[
     "f := (it: () -> (bool, int | string)) -> any { return (it ? int $], it $]) }; f([1, \"a\", 2]~)",
     "r := [1, \"a\"]~ $ 0 (acc: int | string, e: int | string) -> int | string { return e }; r",
     "([1, 2.5]~ \\ (v: int | float) -> bool { return match v { i: int => true, => false, } })",
+    // evaluation order of struct initialisers (a site where the fields go through a keyed collection):
+    // interacting effects and competing failures make the order observable
+    "i := mut 1; s := struct{ a := (i += 1), b := (i *= 10), c := (i -= 3) }; (s.a, s.b, s.c, *i)",
+    "i := mut 1; g := (v: int) -> int { i *= 2; i += v; return *i }; s := struct{ p := g(1), q := g(2), r := g(3), t := g(4) }; (s.p, s.q, s.r, s.t, *i)",
+    "i := mut 0; n := () -> int { i += 1; return *i }; x := [struct{ a := n(), b := n() }, struct{ b := n(), a := n() }]; (x[0].a, x[0].b, x[1].a, x[1].b)",
+    "i := mut 1; z := [1]; s := struct{ a := z[*i + 4], b := 10 / (*i - 1), c := 10 % (*i - 1) }; s",
 ];
+
+/// programs of the list whose execution is meant to fail (which failure is part of the outcome)
+const FAILING: &[&str] = &["i := mut 1; z := [1]; s := struct{ a := z[*i + 4], b := 10 / (*i - 1), c := 10 % (*i - 1) }; s"];
 
 #[derive(Default)]
 struct Acc {
@@ -289,7 +298,7 @@ pub fn run(tier: &str) -> i32 {
         explore(acc, "program", &format!("#{i} {}", text.chars().take(50).collect::<String>().replace('|', "/")), json!({"kind": "program", "stdlib": true, "text": text}), bound, if thorough { 40_000 } else { 4000 }, &mut || program_outcome(text));
         // every program must be accepted and complete under the canonical order (non-vacuity)
         let base = program_outcome(text);
-        if !base.contains("value=") {
+        if !base.contains("value=") && !(FAILING.contains(&text) && base.contains("error:")) {
             acc.violations.push(Violation {
                 sig: format!("C05|family-program-does-not-complete|#{i}"),
                 detail: json!({"kind": "program", "stdlib": true, "text": text, "observed": base}),
